@@ -29,6 +29,8 @@ def scenario(rng, ticks):
     multi = rng.random() < 0.25
     plan = {}
     early = set()   # entries whose only lookup before the first sweep comes a few seconds after delivery
+    soon = set()    # entries looked up at delivery and AGAIN 3-4.5 s later, then not until after the first sweep: the second
+                    # lookup (25.5-27 s before the sweep) counts although it follows the first one closely
     for rt in ("lds", "rds", "cds", "eds"):
         # the same name occurs in several types (a cluster and its endpoint set usually share their name)
         pool = ["l1", "l2", "l3"] if rt == "lds" else g.NAMES[rt][:3] + ["shared"]
@@ -56,6 +58,8 @@ def scenario(rng, ticks):
                 idle_budget -= 1
             elif rng.random() < 0.35:
                 early.add((rt, n))
+            elif accessed and rng.random() < 0.3:
+                soon.add((rt, n))
             plan[(rt, n)] = idle
     if lds_warm:
         plan[("lds", "virtualInbound")] = rng.random() < 0.5      # the reserved listener: idle or not, it must stay
@@ -67,6 +71,10 @@ def scenario(rng, ticks):
             # the entry is a little older than the manager (as after a restart of the sweeper); a lookup a few seconds
             # later must still count for the whole expiry period
             ops.append({"op": "backdate", "rt": rt, "name": n, "ms": 3000})
+    if soon:
+        ops.append({"op": "sleep_until", "ms": rng.choice([3000, 3800, 4500])})
+        for (rt, n) in sorted(soon):
+            ops.append({"op": "lookup", "rt": rt, "name": n})
     if early:
         ops.append({"op": "sleep_until", "ms": rng.choice([5000, 6000, 7000])})
         for (rt, n) in sorted(early):
@@ -74,7 +82,7 @@ def scenario(rng, ticks):
     for k in range(1, ticks + 1):
         ops.append({"op": "sleep_until", "ms": 30000 * k - rng.choice([8000, 6500, 5000])})
         for (rt, n), idle in plan.items():
-            if not idle and not (k == 1 and (rt, n) in early):
+            if not idle and not (k == 1 and ((rt, n) in early or (rt, n) in soon)):
                 ops.append({"op": "lookup", "rt": rt, "name": n})
         # the control plane pushes again shortly before the sweep: an update is not a lookup, idle entries stay idle
         for rt in ("lds", "rds", "cds", "eds"):
